@@ -317,6 +317,58 @@ def fam_lineno(rng):
     return rs, cfg, gen
 
 
+def fam_switchwrap(rng):
+    """an include done by *switching*: an action leaves the current buffer for an in-memory one (yy_scan_bytes /
+    yy_scan_string), and when that ends yywrap() switches back to the buffer that was left and returns 0 - scanning must
+    resume there exactly where it stopped (C11; half the scanners use REJECT, whose state buffer yy_switch_to_buffer sizes)"""
+    rs = rules.gen_ruleset(rng, p_trail=0.0, p_bol=0.3)
+    cfg = rt.Config(backend=_backend(rng), topt=rng.choice(TOPTS), interactive=rng.choice([None, False]),
+                    lineno=rng.random() < 0.4, reject=rng.random() < 0.5)
+    if cfg.reject:
+        cfg.topt = _compressed(rng)
+
+    def gen(rng, rs, cfg):
+        srcs = [rtgen.gen_input(rng, rs, maxlen=40) for _ in range(3)]
+        srcs[2] = [c for c in srcs[2] if c != 0]
+        acts = {}
+        for k in range(60):
+            x = rng.random()
+            if x < 0.2:
+                acts[k] = ['return:%d' % rng.randrange(1, 90)]
+            elif x < 0.27:
+                acts[k] = ['less:%d' % rng.randrange(0, 3)]
+            elif x < 0.4 and cfg.reject:
+                acts[k] = ['reject']
+        k0 = rng.randrange(0, 5)
+        acts[k0] = ['grab', rng.choice(['scanbytes:1', 'scanstring:2'])]
+        return dict(srcs=srcs, main=['lex'] * 14 + ['destroy'], acts=acts, wraps=['s0', None], sched=rtgen.gen_sched(rng),
+                    bufsize=16384 if cfg.reject else rng.choice(rtgen.BUFSIZES))
+    gen.small = True
+    return rs, cfg, gen
+
+
+def fam_memmore(rng):
+    """yymore() on in-memory buffers (yy_scan_bytes / yy_scan_string before the first yylex): such a buffer is never
+    refilled, and whether the end of it is "end of input" or "match the pending text first" depends on the prefix kept
+    by yymore() (C08, C10)"""
+    rs = rules.gen_ruleset(rng, p_trail=0.0)
+    cfg = rt.Config(backend=_backend(rng), topt=rng.choice(TOPTS), interactive=rng.choice([None, False]),
+                    yymore=True, array=rng.random() < 0.3)
+    inner = _ops_case(kinds=['more', 'more', 'less', 'return'])
+
+    def gen(rng, rs, cfg):
+        c = inner(rng, rs, cfg)
+        c['srcs'] = [c['srcs'][0], [b for b in c['srcs'][0] if b != 0]]
+        c['main'] = [rng.choice(['scanbytes:0', 'scanstring:1'])] + c['main']
+        # the last tokens of the input call yymore() more often than not
+        for k in range(0, 60):
+            if k not in c['acts'] and rng.random() < 0.35:
+                c['acts'][k] = ['more']
+        return c
+    gen.small = inner.small
+    return rs, cfg, gen
+
+
 def fam_inputbol(rng):
     """yyinput() and the beginning-of-line flag: many ^ rules, lines of one or two characters, actions that read one to
     three characters with yyinput() (so: a newline and then something else, or the other way round) and log yyatbol();
@@ -580,5 +632,5 @@ def fam_sertrail(rng):
     return rs, cfg, _ops_case(kinds=['less', 'return'] + (['reject'] if rej else []), small=not rej)
 
 
-FAMILIES = {'inputbol': fam_inputbol, 'sertrail': fam_sertrail, 'buffers': fam_buffers, 'include': fam_include, 'plain': fam_plain, 'ops': fam_ops, 'unput': fam_unput, 'reject': fam_reject,
+FAMILIES = {'switchwrap': fam_switchwrap, 'memmore': fam_memmore, 'inputbol': fam_inputbol, 'sertrail': fam_sertrail, 'buffers': fam_buffers, 'include': fam_include, 'plain': fam_plain, 'ops': fam_ops, 'unput': fam_unput, 'reject': fam_reject,
             'lineno': fam_lineno, 'trail': fam_trail, 'eof': fam_eof, 'deepstack': fam_deepstack, 'reads': fam_reads, 'bufreq': fam_bufreq, 'arraymore': fam_arraymore, 'wrapbol': fam_wrapbol}
